@@ -5,10 +5,15 @@ package plugin
 import (
 	"context"
 	"crypto/tls"
+	"encoding/base64"
 	"errors"
+	"net"
 	"net/rpc"
+	"os"
 	"os/exec"
 	"time"
+
+	"google.golang.org/grpc/health/grpc_health_v1"
 
 	hclog "github.com/hashicorp/go-hclog"
 	"github.com/hashicorp/go-plugin/runner"
@@ -216,3 +221,146 @@ func harnessC14legacyLines() {
 var _ = context.Background
 var _ = rpc.NewServer
 var _ grpc.ServerOption
+
+// ---------------------------------------------------------------------------------------------- C12: AutoMTLS
+// Intruder process: connects to a listener with a given credential class and tries to get a request served.
+//   class 0 plaintext; 1 TLS without a client certificate; 2 TLS with a fresh self-signed certificate
+// (the intruder does not care about the server's identity: InsecureSkipVerify)
+func wIntruderCfg(class int) *tls.Config {
+	switch class {
+	case 1:
+		return &tls.Config{InsecureSkipVerify: true}
+	case 2:
+		c, k, _ := generateCert()
+		cert, _ := tls.X509KeyPair(c, k)
+		return &tls.Config{InsecureSkipVerify: true, Certificates: []tls.Certificate{cert}}
+	}
+	return nil
+}
+
+// tries to get a gRPC request answered through listener l; true if anything was served
+func wIntrudeGRPC(l *wListener, class int) bool {
+	cfg := wIntruderCfg(class)
+	cc, err := dialGRPCConn(cfg, func(string, time.Duration) (net.Conn, error) { return net.Dial(l.addr.network, l.addr.addr) })
+	if err != nil {
+		return false
+	}
+	ctx, cancel := context.WithTimeout(context.Background(), 3*time.Second)
+	defer cancel()
+	_, err = grpc_health_v1.NewHealthClient(cc).Check(ctx, &grpc_health_v1.HealthCheckRequest{})
+	return err == nil
+}
+
+// tries to get a net/rpc request answered through listener l
+func wIntrudeRPC(l *wListener, class int) bool {
+	conn, err := net.Dial(l.addr.network, l.addr.addr)
+	if err != nil {
+		return false
+	}
+	if cfg := wIntruderCfg(class); cfg != nil {
+		conn = tls.Client(conn, cfg)
+	}
+	cl, err := NewRPCClient(conn, PluginSet{"test": &wPlug{}})
+	if err != nil {
+		return false
+	}
+	return cl.Ping() == nil
+}
+
+func harnessC12() {
+	var o wOpts
+	o.grpc = vChoice(2) == 1
+	o.tls = 1
+	o.allowed = 1
+	o.cmd = vChoice(2) == 1
+	w := wSetup(o)
+	c := w.c
+	cp, err := c.Client()
+	vAssert(err == nil, "C12: the legitimate host connects under AutoMTLS")
+	raw, err := cp.Dispense("test")
+	vAssert(err == nil, "C12: the legitimate host dispenses under AutoMTLS")
+	tag, err := raw.(wStub).Whoami()
+	vAssert(err == nil && tag == 1, "C12: the legitimate host's call is served under AutoMTLS")
+	vCover("legit-works")
+
+	// brokered listeners in both directions (gRPC, no multiplexing)
+	if o.grpc {
+		hb := cp.(*GRPCClient).broker
+		pbk := w.plugPl.impls[0].gb
+		go func() { vDaemon(); hb.AcceptAndServe(71, wNewGRPCServer) }()
+		go func() { vDaemon(); vSetProc(w.p.id); pbk.AcceptAndServe(72, wNewGRPCServer) }()
+		vSleepUntil(vNow() + sec)
+		vCover("brokered-listeners")
+	}
+
+	servedBefore := w.plugPl.made
+	n := 0
+	for _, l := range wListeners {
+		if l.closed {
+			continue
+		}
+		n++
+		for class := 0; class < 3; class++ {
+			vSetProc(2) // the intruder is its own process
+			var got bool
+			if o.grpc {
+				got = wIntrudeGRPC(l, class)
+			} else {
+				got = wIntrudeRPC(l, class)
+			}
+			vSetProc(0)
+			switch class {
+			case 0:
+				vAssert(!got, "C12: a plaintext peer is refused before any request is served")
+			case 1:
+				vAssert(!got, "C12: a peer without a certificate is refused before any request is served")
+			case 2:
+				vAssert(!got, "C12: a peer with any other certificate is refused before any request is served")
+			}
+		}
+	}
+	vAssert(n >= 1, "C12: there is a listener to attack")
+	if o.grpc {
+		vAssert(n >= 3, "C12: main and both brokered listeners were attacked")
+	}
+	vAssert(w.plugPl.made == servedBefore, "C12: nothing was dispensed to an intruder")
+	vCover("intruders-refused")
+	// the legitimate connection is unharmed
+	tag, err = raw.(wStub).Whoami()
+	vAssert(err == nil && tag == 1, "C12: the legitimate connection keeps working")
+	c.Kill()
+	vDone()
+}
+
+// an impostor plugin: announces one certificate on the handshake line and serves with another
+func harnessC12impostor() {
+	pl := &wPlug{}
+	ac, _, _ := generateCert() // announced
+	sc, sk, _ := generateCert() // actually served
+	scert, _ := tls.X509KeyPair(sc, sk)
+	p := newWProc(func() {
+		l, _ := net.Listen("unix", "/tmp/impostor")
+		tl := tls.NewListener(l, &tls.Config{Certificates: []tls.Certificate{scert}})
+		announced := base64.RawStdEncoding.EncodeToString([]byte("DER:" + wCertIdent(ac)))
+		mPrintf("%s\n", "1|1|unix|/tmp/impostor|netrpc|"+announced)
+		r1, _, _ := os.Pipe()
+		r2, _, _ := os.Pipe()
+		srv := &RPCServer{Plugins: PluginSet{"test": pl}, Stdout: r1, Stderr: r2, DoneCh: make(chan struct{})}
+		srv.Serve(tl)
+	})
+	cfg := &ClientConfig{HandshakeConfig: wHandshake0, Plugins: PluginSet{"test": &wPlug{}}, Logger: newWLogger(), AutoMTLS: true, Cmd: wCommand(p)}
+	c := NewClient(cfg)
+	cp, err := c.Client()
+	if err == nil {
+		var raw interface{}
+		raw, err = cp.Dispense("test")
+		if err == nil {
+			_, err = raw.(wStub).Whoami()
+		}
+	}
+	vAssert(err != nil, "C12: the host refuses a plugin that serves another certificate than the one it announced")
+	vAssert(pl.made == 0, "C12: nothing is dispensed by an impostor plugin")
+	vCover("impostor-refused")
+	c.Kill()
+	vDone()
+}
